@@ -169,6 +169,9 @@ class SFP(core.Opaque):
     """python int(x): truncation toward zero (x finite, |x| < 2^62 assumed)."""
     return SBV(z3.fpToSBV(RTZ, self.t, z3.BitVecSort(64)))
 
+  def __float__(self):
+    return 0.0          # only so that '%f' % x does not fail; printed values of an SFP run are never read
+
   def __format__(self, spec):
     return "<SFP>"
 
